@@ -382,7 +382,7 @@ func runC03(c *ctx) {
 		// IDs and type names that JSON must escape
 		if c.r.chance(1, 3) {
 			for j := range d.data {
-				d.data[j].ops[0] = setOp{"id", pick(c.r, []string{"a\"b", "a\\b", "</script>", " ", "x\ty", "é"}) + fmt.Sprint(j)}
+				d.data[j].ops[0] = setOp{"id", pick(c.r, []string{"a\"b", "a\\b", "</script>", " ", "x\ty", "é", "c\x01d", "e\x7ff", "g\vh\a"}) + fmt.Sprint(j)}
 			}
 		}
 		c03Marshal(c, d, "random")
